@@ -1143,3 +1143,798 @@ Proof.
   unfold l_clear. pose proof (clear_loop_empty tb (S (length d)) d [] (Nat.lt_succ_diag_r _)) as H.
   destruct (clear_loop tb (S (length d)) d []) as [d1 es1]. cbn [fst] in H. intros E. inversion E. subst. reflexivity.
 Qed.
+
+(* ================================================================== list operations against Coq list functions *)
+Fixpoint upd_nat (l : list Z) (n : nat) (v : Z) : list Z :=
+  match l, n with
+  | [], _ => []
+  | _ :: t, O => v :: t
+  | x :: t, S m => x :: upd_nat t m v
+  end.
+Lemma zupd_upd_nat d : forall n v, (n < length d)%nat ->
+  firstn n d ++ v :: skipn (S n) d = upd_nat d n v.
+Proof.
+  induction d as [|x t IH]; intros [|n] v H; cbn in *; try lia; [reflexivity|].
+  f_equal. apply IH. lia.
+Qed.
+Lemma nth_upd_nat d : forall n m v, (n < length d)%nat ->
+  nth m (upd_nat d n v) 0 = if Nat.eqb m n then v else nth m d 0.
+Proof.
+  induction d as [|x t IH]; intros [|n] [|m] v H; cbn in *; try lia; try reflexivity.
+  apply IH. lia.
+Qed.
+Lemma length_upd_nat d : forall n v, length (upd_nat d n v) = length d.
+Proof. induction d as [|x t IH]; intros [|n] v; cbn; try reflexivity. f_equal. apply IH. Qed.
+
+Lemma znth_zupd d j v m : 0 <= j < zlen d -> 0 <= m ->
+  znth (zupd d j v) m = if m =? j then v else znth d m.
+Proof.
+  intros Hj Hm. unfold znth, zupd, zlen in *. rewrite zupd_upd_nat by lia. rewrite nth_upd_nat by lia.
+  destruct (Nat.eqb (Z.to_nat m) (Z.to_nat j)) eqn:E1, (m =? j) eqn:E2; try reflexivity.
+  - apply Nat.eqb_eq in E1. apply Z.eqb_neq in E2. lia.
+  - apply Nat.eqb_neq in E1. apply Z.eqb_eq in E2. subst. lia.
+Qed.
+
+(* ---- reverse *)
+Definition rev_inv (d0 : list Z) (i : Z) (d : list Z) : Prop :=
+  zlen d = zlen d0 /\
+  forall m, 0 <= m < zlen d0 ->
+    znth d m = if (m <? i) || (zlen d0 - 1 - i <? m) then znth d0 (zlen d0 - 1 - m) else znth d0 m.
+
+Lemma reverse_loop_inv tb d0 fuel : forall i d acc,
+  rev_inv d0 i d -> 0 <= i -> i + Z.of_nat fuel <= zlen d0 / 2 ->
+  rev_inv d0 (i + Z.of_nat fuel) (fst (reverse_loop tb fuel i d acc)).
+Proof.
+  induction fuel as [|f IH]; intros i d acc [Hl Hv] Hi Hb; cbn [reverse_loop].
+  - cbn [fst]. rewrite Z.add_0_r. split; assumption.
+  - assert (0 <= zlen d0) as Hn0 by (unfold zlen; lia).
+    assert (2 * (zlen d0 / 2) <= zlen d0) as Hdiv by (apply Z.mul_div_le; lia).
+    assert (0 <= i < zlen d0) as R1 by lia.
+    assert (0 <= zlen d0 - i - 1 < zlen d0) as R2 by lia.
+    replace (i + Z.of_nat (S f)) with ((i + 1) + Z.of_nat f) by lia.
+    apply IH; [|lia|lia].
+    rewrite Hl. split.
+    + rewrite !zlen_zupd; [exact Hl| rewrite Hl; exact R1 | rewrite zlen_zupd by (rewrite Hl; exact R1); rewrite Hl; exact R2].
+    + intros m Hm.
+      rewrite znth_zupd; [| rewrite zlen_zupd by (rewrite Hl; exact R1); rewrite Hl; exact R2 | lia].
+      rewrite znth_zupd; [|rewrite Hl; exact R1|lia].
+      rewrite (Hv i R1), (Hv (zlen d0 - i - 1) R2), (Hv m Hm).
+      repeat match goal with
+             | |- context [?a <? ?b] => destruct (Z.ltb_spec a b)
+             | |- context [?a =? ?b] => destruct (Z.eqb_spec a b)
+             end; cbn [orb]; try lia; try (f_equal; lia).
+Qed.
+
+Lemma rev_inv_done d0 d : rev_inv d0 (zlen d0 / 2) d -> d = rev d0.
+Proof.
+  intros [Hl Hv].
+  assert (0 <= zlen d0) as Hn0 by (unfold zlen; lia).
+  assert (zlen d0 = 2 * (zlen d0 / 2) + zlen d0 mod 2) as Hdm by (apply Z.div_mod; lia).
+  assert (0 <= zlen d0 mod 2 < 2) as Hmod by (apply Z.mod_pos_bound; lia).
+  assert (length d = length d0) as Hlen by (unfold zlen in Hl; lia).
+  apply (nth_ext _ _ 0 0).
+  - rewrite rev_length. exact Hlen.
+  - intros k Hk. rewrite rev_nth by lia.
+    assert (0 <= Z.of_nat k < zlen d0) as Hkz by (unfold zlen; lia).
+    specialize (Hv (Z.of_nat k) Hkz). unfold znth in Hv. rewrite Nat2Z.id in Hv. rewrite Hv.
+    assert (Z.to_nat (zlen d0 - 1 - Z.of_nat k) = (length d0 - S k)%nat) as Hidx by (unfold zlen; lia).
+    destruct ((Z.of_nat k <? zlen d0 / 2) || (zlen d0 - 1 - zlen d0 / 2 <? Z.of_nat k)) eqn:E.
+    + rewrite Hidx. reflexivity.
+    + apply orb_false_iff in E. destruct E as [E1 E2]. apply Z.ltb_ge in E1. apply Z.ltb_ge in E2.
+      f_equal. unfold zlen in *. lia.
+Qed.
+
+Theorem reverse_spec tb d d' es r : l_reverse tb d = LOk d' es r -> d' = rev d.
+Proof.
+  unfold l_reverse.
+  assert (0 <= zlen d / 2) as H2 by (apply Z.div_pos; unfold zlen; lia).
+  pose proof (reverse_loop_inv tb d (Z.to_nat (zlen d / 2)) 0 d []) as R.
+  destruct (reverse_loop tb (Z.to_nat (zlen d / 2)) 0 d []) as [d1 es1]. cbn [fst] in R.
+  intros E. inversion E. subst d1. apply rev_inv_done.
+  replace (zlen d / 2) with (0 + Z.of_nat (Z.to_nat (zlen d / 2))) at 1 by lia.
+  apply R; [|lia|lia]. split; [reflexivity|]. intros m Hm.
+  assert ((m <? 0) || (zlen d - 1 - 0 <? m) = false) as ->; [|reflexivity].
+  apply orb_false_iff. split; apply Z.ltb_ge; lia.
+Qed.
+
+(* ---- pop, remove *)
+Lemma zdel_last d : d <> [] -> zdel d (zlen d - 1) = removelast d.
+Proof.
+  intros Hne. unfold zdel, zlen. assert (0 < length d)%nat by (destruct d; [contradiction|cbn; lia]).
+  replace (S (Z.to_nat (Z.of_nat (length d) - 1))) with (length d) by lia.
+  rewrite skipn_all, app_nil_r. replace (Z.to_nat (Z.of_nat (length d) - 1)) with (pred (length d)) by lia.
+  symmetry. apply removelast_firstn_len.
+Qed.
+Lemma znth_last d : d <> [] -> znth d (zlen d - 1) = last d 0.
+Proof.
+  intros Hne. unfold znth, zlen. replace (Z.to_nat (Z.of_nat (length d) - 1)) with (length d - 1)%nat by lia.
+  induction d as [|x t IH]; [contradiction|]. destruct t as [|y t']; [reflexivity|].
+  cbn [length last]. replace (S (S (length t')) - 1)%nat with (S (length (y :: t') - 1)) by (cbn [length]; lia).
+  cbn [nth]. apply IH. discriminate.
+Qed.
+Lemma norm_index_m1 d : d <> [] -> norm_index (zlen d) (-1) = Some (zlen d - 1).
+Proof.
+  intros Hne. assert (0 < zlen d) as Hp by (unfold zlen; destruct d; [contradiction|cbn [length]; lia]).
+  unfold norm_index. change (-1 <? 0) with true. cbv iota.
+  destruct (0 <=? -1 + zlen d) eqn:E1; [|apply Z.leb_gt in E1; lia].
+  destruct (-1 + zlen d <? zlen d) eqn:E2; [|apply Z.ltb_ge in E2; lia].
+  cbn [andb]. f_equal. lia.
+Qed.
+Lemma norm_index_m1_nil : norm_index (zlen []) (-1) = None.
+Proof. reflexivity. Qed.
+
+Fixpoint remove_first (v : Z) (l : list Z) : list Z :=
+  match l with [] => [] | x :: t => if x =? v then t else x :: remove_first v t end.
+Lemma zdel_0 x t : zdel (x :: t) 0 = t.
+Proof. reflexivity. Qed.
+Lemma zdel_succ x t p : 0 <= p -> zdel (x :: t) (p + 1) = x :: zdel t p.
+Proof. intros H. unfold zdel. replace (Z.to_nat (p + 1)) with (S (Z.to_nat p)) by lia. reflexivity. Qed.
+Lemma index_of_spec v l : forall i,
+  match index_of i v l with
+  | Some j => i <= j < i + zlen l /\ zdel l (j - i) = remove_first v l /\ In v l
+  | None => ~ In v l
+  end.
+Proof.
+  induction l as [|x t IH]; intros i; cbn [index_of remove_first]; [intros []|].
+  destruct (x =? v) eqn:E.
+  - apply Z.eqb_eq in E. subst. rewrite Z.sub_diag. unfold zlen. cbn [length].
+    split; [lia|]. split; [reflexivity|left; reflexivity].
+  - apply Z.eqb_neq in E. specialize (IH (i + 1)). destruct (index_of (i + 1) v t) as [j|].
+    + destruct IH as [Hr [Hz Hin]]. unfold zlen in *. cbn [length]. split; [lia|]. split; [|right; exact Hin].
+      replace (j - i) with ((j - (i + 1)) + 1) by lia. rewrite zdel_succ by lia. rewrite Hz. reflexivity.
+    + intros [H|H]; [congruence|contradiction].
+Qed.
+
+(* ---- the 13 mutators as Coq list functions (None = the call raises and changes nothing) *)
+Definition list_op_result (d : list Z) (o : lop) : option (list Z) :=
+  match o with
+  | LAppend v => Some (d ++ [v])
+  | LInsert i v => let j := Z.to_nat (ins_pos (zlen d) i) in Some (firstn j d ++ v :: skipn j d)
+  | LSetItem i v => option_map (fun j => zupd d j v) (norm_index (zlen d) i)
+  | LSetSlice a b c vs =>
+      match slice_indices (zlen d) a b c with
+      | None => None
+      | Some (start, stop, step) =>
+          if step =? 1 then Some (firstn (Z.to_nat start) d ++ vs ++ skipn (Z.to_nat (Z.max start stop)) d)
+          else if zlen vs =? slice_len start stop step
+               then Some (set_positions d (slice_positions start stop step) vs) else None
+      end
+  | LDelItem i => option_map (zdel d) (norm_index (zlen d) i)
+  | LDelSlice a b c =>
+      match slice_indices (zlen d) a b c with
+      | None => None
+      | Some (start, stop, step) => Some (del_positions 0 d (slice_positions start stop step))
+      end
+  | LPop None => match d with [] => None | _ => Some (removelast d) end
+  | LPop (Some i) => option_map (zdel d) (norm_index (zlen d) i)
+  | LRemove v => if zmem v d then Some (remove_first v d) else None
+  | LExtend vs => Some (d ++ vs)
+  | LExtendSelf => Some (d ++ d)
+  | LIAdd vs => Some (d ++ vs)
+  | LReverse => Some (rev d)
+  | LClear => Some []
+  end.
+(* value returned by pop *)
+Definition list_op_ret (d : list Z) (o : lop) : val :=
+  match o with
+  | LPop None => VInt (last d 0)
+  | LPop (Some i) => match norm_index (zlen d) i with Some j => VInt (znth d j) | None => VNone end
+  | _ => VNone
+  end.
+
+Lemma zlen_slice_positions start stop step : zlen (slice_positions start stop step) = Z.max 0 (slice_len start stop step).
+Proof.
+  unfold slice_positions, zlen, zrange. rewrite map_length, map_length, seq_length. lia.
+Qed.
+Lemma slice_len_nonneg start stop step : step <> 0 -> 0 <= slice_len start stop step.
+Proof.
+  intros Hs. unfold slice_len. destruct (step <? 0) eqn:E.
+  - apply Z.ltb_lt in E. destruct (stop <? start) eqn:E2; [|lia]. apply Z.ltb_lt in E2.
+    assert (0 <= (start - stop - 1) / - step) by (apply Z.div_pos; lia). lia.
+  - apply Z.ltb_ge in E. destruct (start <? stop) eqn:E2; [|lia]. apply Z.ltb_lt in E2.
+    assert (0 <= (stop - start - 1) / step) by (apply Z.div_pos; lia). lia.
+Qed.
+Lemma slice_indices_step len a b c start stop step :
+  slice_indices len a b c = Some (start, stop, step) -> step <> 0.
+Proof.
+  unfold slice_indices. destruct (match c with Some s => s | None => 1 end =? 0) eqn:E; [discriminate|].
+  intros H. inversion H. subst. apply Z.eqb_neq in E. exact E.
+Qed.
+
+Theorem list_op_spec tb d o :
+  match list_op tb d o with
+  | LOk d' _ r => list_op_result d o = Some d' /\ r = list_op_ret d o
+  | LErr _ => list_op_result d o = None
+  end.
+Proof.
+  destruct o as [v|i v|i v|a b c vs|i|a b c|[i|]|v|vs| |vs| | ]; cbn [list_op list_op_result list_op_ret].
+  - split; reflexivity.
+  - split; reflexivity.
+  - unfold p_setitem. destruct (norm_index (zlen d) i); cbn [option_map]; [split; reflexivity|reflexivity].
+  - unfold p_setslice. destruct (slice_indices (zlen d) a b c) as [[[start stop] step]|] eqn:E; [|reflexivity].
+    destruct (step =? 1); [split; reflexivity|].
+    rewrite zlen_slice_positions, Z.max_r by (apply slice_len_nonneg; apply (slice_indices_step _ _ _ _ _ _ _ E)).
+    destruct (zlen vs =? slice_len start stop step); [split; reflexivity|reflexivity].
+  - unfold p_delitem. destruct (norm_index (zlen d) i); cbn [option_map]; [split; reflexivity|reflexivity].
+  - unfold p_delslice. destruct (slice_indices (zlen d) a b c) as [[[start stop] step]|]; [split; reflexivity|reflexivity].
+  - unfold l_pop, p_delitem. destruct (norm_index (zlen d) i); cbn [option_map]; [split; reflexivity|reflexivity].
+  - unfold l_pop, p_delitem. destruct d as [|x t]; [reflexivity|].
+    rewrite norm_index_m1 by discriminate. split.
+    + rewrite zdel_last by discriminate. reflexivity.
+    + rewrite znth_last by discriminate. reflexivity.
+  - unfold l_remove. pose proof (index_of_spec v d 0) as S. destruct (index_of 0 v d) as [j|].
+    + destruct S as [Hr [Hz Hin]]. unfold p_delitem. rewrite norm_index_in by lia.
+      apply zmem_In in Hin. rewrite Hin. rewrite Z.sub_0_r in Hz. rewrite Hz. split; reflexivity.
+    + destruct (zmem v d) eqn:E; [apply zmem_In in E; contradiction|reflexivity].
+  - pose proof (extend_spec tb d vs) as S. destruct (l_extend tb d vs) as [d' es r|k] eqn:E.
+    + rewrite (S _ _ _ eq_refl). unfold l_extend in E. destruct (extend_loop tb d vs []). inversion E. split; reflexivity.
+    + unfold l_extend in E. destruct (extend_loop tb d vs []). discriminate.
+  - pose proof (extend_spec tb d d) as S. destruct (l_extend tb d d) as [d' es r|k] eqn:E.
+    + rewrite (S _ _ _ eq_refl). unfold l_extend in E. destruct (extend_loop tb d d []). inversion E. split; reflexivity.
+    + unfold l_extend in E. destruct (extend_loop tb d d []). discriminate.
+  - pose proof (extend_spec tb d vs) as S. destruct (l_extend tb d vs) as [d' es r|k] eqn:E.
+    + rewrite (S _ _ _ eq_refl). unfold l_extend in E. destruct (extend_loop tb d vs []). inversion E. split; reflexivity.
+    + unfold l_extend in E. destruct (extend_loop tb d vs []). discriminate.
+  - pose proof (reverse_spec tb d) as S. destruct (l_reverse tb d) as [d' es r|k] eqn:E.
+    + rewrite (S _ _ _ eq_refl). unfold l_reverse in E. destruct (reverse_loop tb _ 0 d []). inversion E. split; reflexivity.
+    + unfold l_reverse in E. destruct (reverse_loop tb _ 0 d []). discriminate.
+  - pose proof (clear_spec tb d) as S. destruct (l_clear tb d) as [d' es r|k] eqn:E.
+    + rewrite (S _ _ _ eq_refl). unfold l_clear in E. destruct (clear_loop tb _ d []). inversion E. split; reflexivity.
+    + unfold l_clear in E. destruct (clear_loop tb _ d []). discriminate.
+Qed.
+
+(* ================================================================== the listener: history-level replay *)
+Fixpoint upd_list {A} (l : list A) (n : nat) (f : A -> A) : list A :=
+  match l, n with
+  | [], _ => []
+  | x :: t, O => f x :: t
+  | x :: t, S m => x :: upd_list t m f
+  end.
+Lemma upd_list_ext {A} (f g : A -> A) l : forall n, (forall x, f x = g x) -> upd_list l n f = upd_list l n g.
+Proof. induction l as [|a t IH]; intros [|n] H; cbn; try reflexivity; [rewrite H; reflexivity|f_equal; apply IH; exact H]. Qed.
+Lemma upd_list_comp {A} (f g : A -> A) l : forall n, upd_list (upd_list l n f) n g = upd_list l n (fun x => g (f x)).
+Proof. induction l as [|a t IH]; intros [|n]; cbn; try reflexivity. f_equal. apply IH. Qed.
+Lemma upd_list_id {A} l : forall n, upd_list l n (fun x : A => x) = l.
+Proof. induction l as [|a t IH]; intros [|n]; cbn; try reflexivity. f_equal. apply IH. Qed.
+Lemma upd_list_at {A} (f : A -> A) l : forall n x, nth_error l n = Some x ->
+  upd_list l n f = upd_list l n (fun _ => f x).
+Proof. induction l as [|a t IH]; intros [|n] x H; cbn in *; try discriminate; [congruence|f_equal; apply IH; exact H]. Qed.
+Lemma set_slot_upd slots : forall n v, set_slot slots n v = upd_list slots n (fun _ => v).
+Proof. induction slots as [|a t IH]; intros [|n] v; cbn; try reflexivity. f_equal. apply IH. Qed.
+Lemma map_set_inst insts : forall n x', map i_slots (set_inst insts n x') = upd_list (map i_slots insts) n (fun _ => i_slots x').
+Proof. induction insts as [|a t IH]; intros [|n] x'; cbn; try reflexivity. f_equal. apply IH. Qed.
+
+Definition cnt (h : Z) (l : list Z) : nat := length (filter (Z.eqb h) l).
+Lemma cnt_app h a b : cnt h (a ++ b) = (cnt h a + cnt h b)%nat.
+Proof. unfold cnt. rewrite filter_app, app_length. reflexivity. Qed.
+Lemma cnt_filter_keep h f l : f h = true -> cnt h (filter f l) = cnt h l.
+Proof.
+  intros Hf. unfold cnt. rewrite filter_filter_comm. induction l as [|x t IH]; cbn [filter]; [reflexivity|].
+  destruct (h =? x) eqn:E; cbn [filter].
+  - apply Z.eqb_eq in E. subst x. rewrite Hf. cbn [length]. f_equal. exact IH.
+  - exact IH.
+Qed.
+
+Definition emit_of (s : signal) : emit :=
+  {| e_type := s_type s; e_old := s_old s; e_new := s_new s; e_index := s_index s |}.
+Lemma emit_of_mk owner n e : emit_of (mk_signal owner n e) = e.
+Proof. destruct e; reflexivity. Qed.
+
+Section Listener.
+  Variable tb : sig_tables.
+  Hypothesis Hok : tables_ok tb = true.
+  Variable h : Z.
+
+  (* what the listener does with a signal on its copy of one observable *)
+  Definition apply_signal (sl : slot) (s : signal) : slot :=
+    match sl with
+    | SObs cur fb =>
+        if s_type s =? tb_emit_assign tb then match s_new s with VInt v => SObs (Some v) fb | _ => sl end else sl
+    | SList cur => SList (Some (apply_emit tb (match cur with Some c => c | None => [] end) (emit_of s)))
+    end.
+  (* the listener's copy: for every instance (signal.owner) the value of every observable (signal.name) *)
+  Definition apply_delivery (cp : list (list slot)) (d : delivery) : list (list slot) :=
+    if fst d =? h then
+      let s := snd d in
+      if (s_owner s <? 0) || (s_name s <? 0) then cp
+      else upd_list cp (Z.to_nat (s_owner s))
+                    (fun sl => upd_list sl (Z.to_nat (s_name s)) (fun x => apply_signal x s))
+    else cp.
+  Definition listen (cp : list (list slot)) (ds : list delivery) : list (list slot) := fold_left apply_delivery ds cp.
+
+  Lemma Hdist' : nodupb (emitted_types tb) = true.
+  Proof. pose proof Hok as H. unfold tables_ok in H. rewrite !andb_true_iff in H. tauto. Qed.
+  Lemma list_types_ok t : In t (emitted_types tb) -> In t (tb_list_types tb).
+  Proof.
+    pose proof Hok as H. unfold tables_ok in H. rewrite !andb_true_iff in H.
+    destruct H as [[[[_ _] H] _] _]. rewrite forallb_forall in H. intros Hin. apply zmem_In. apply H. exact Hin.
+  Qed.
+  Lemma obs_type_ok : In (tb_emit_assign tb) (tb_obs_types tb).
+  Proof.
+    pose proof Hok as H. unfold tables_ok in H. rewrite !andb_true_iff in H.
+    destruct H as [[[[[_ _] H] _] _] _]. apply zmem_In. exact H.
+  Qed.
+
+  (* ---- the types a list operation emits are emitted_types *)
+  Definition etype_ok (e : emit) : Prop := In (e_type e) (emitted_types tb).
+  Lemma extend_loop_types vs : forall d acc, Forall etype_ok acc -> Forall etype_ok (snd (extend_loop tb d vs acc)).
+  Proof.
+    induction vs as [|v t IH]; intros d acc H; cbn [extend_loop snd]; [exact H|].
+    apply IH. apply Forall_app. split; [exact H|]. constructor; [|constructor].
+    unfold etype_ok, emitted_types. cbn. tauto.
+  Qed.
+  Lemma reverse_loop_types fuel : forall i d acc, Forall etype_ok acc -> Forall etype_ok (snd (reverse_loop tb fuel i d acc)).
+  Proof.
+    induction fuel as [|f IH]; intros i d acc H; cbn [reverse_loop snd]; [exact H|].
+    apply IH. apply Forall_app. split; [exact H|].
+    repeat constructor; unfold etype_ok, emitted_types; cbn; tauto.
+  Qed.
+  Lemma p_delitem_types d i d' es r : p_delitem tb d i = LOk d' es r -> Forall etype_ok es.
+  Proof.
+    unfold p_delitem. destruct (norm_index (zlen d) i); [|discriminate]. intros H. inversion H.
+    repeat constructor; unfold etype_ok, emitted_types; cbn; tauto.
+  Qed.
+  Lemma l_pop_types d i d' es r : l_pop tb d i = LOk d' es r -> Forall etype_ok es.
+  Proof.
+    unfold l_pop. destruct (norm_index (zlen d) i); [|discriminate].
+    destruct (p_delitem tb d i) as [d1 es1 r1|] eqn:E; [|discriminate].
+    intros H. inversion H. subst. apply (p_delitem_types _ _ _ _ _ E).
+  Qed.
+  Lemma clear_loop_types fuel : forall d acc, Forall etype_ok acc -> Forall etype_ok (snd (clear_loop tb fuel d acc)).
+  Proof.
+    induction fuel as [|f IH]; intros d acc H; cbn [clear_loop]; [exact H|].
+    destruct (l_pop tb d (-1)) as [d' es r|] eqn:E; [|exact H].
+    apply IH. apply Forall_app. split; [exact H|apply (l_pop_types _ _ _ _ _ E)].
+  Qed.
+  Lemma list_op_types d o d' es r : list_op tb d o = LOk d' es r -> Forall etype_ok es.
+  Proof.
+    destruct o as [v|i v|i v|a b c vs|i|a b c|[i|]|v|vs| |vs| | ]; cbn [list_op].
+    - unfold p_append. intros H. inversion H. repeat constructor; unfold etype_ok, emitted_types; cbn; tauto.
+    - unfold p_insert. intros H. inversion H. repeat constructor; unfold etype_ok, emitted_types; cbn; tauto.
+    - unfold p_setitem. destruct (norm_index (zlen d) i); [|discriminate]. intros H. inversion H.
+      repeat constructor; unfold etype_ok, emitted_types; cbn; tauto.
+    - unfold p_setslice. destruct (slice_indices (zlen d) a b c) as [[[start stop] step]|]; [|discriminate].
+      destruct (step =? 1); [|destruct (zlen vs =? zlen (slice_positions start stop step)); [|discriminate]];
+        intros H; inversion H; repeat constructor; unfold etype_ok, emitted_types; cbn; tauto.
+    - apply p_delitem_types.
+    - unfold p_delslice. destruct (slice_indices (zlen d) a b c) as [[[start stop] step]|]; [|discriminate].
+      intros H. inversion H. repeat constructor; unfold etype_ok, emitted_types; cbn; tauto.
+    - apply l_pop_types.
+    - apply l_pop_types.
+    - unfold l_remove. destruct (index_of 0 v d); [apply p_delitem_types|discriminate].
+    - unfold l_extend. pose proof (extend_loop_types vs d [] (Forall_nil _)) as T.
+      destruct (extend_loop tb d vs []). intros H. inversion H. subst. exact T.
+    - unfold l_extend. pose proof (extend_loop_types d d [] (Forall_nil _)) as T.
+      destruct (extend_loop tb d d []). intros H. inversion H. subst. exact T.
+    - unfold l_extend. pose proof (extend_loop_types vs d [] (Forall_nil _)) as T.
+      destruct (extend_loop tb d vs []). intros H. inversion H. subst. apply Forall_app. split; [exact T|].
+      repeat constructor; unfold etype_ok, emitted_types; cbn; tauto.
+    - unfold l_reverse. pose proof (reverse_loop_types (Z.to_nat (zlen d / 2)) 0 d [] (Forall_nil _)) as T.
+      destruct (reverse_loop tb (Z.to_nat (zlen d / 2)) 0 d []). intros H. inversion H. subst. exact T.
+    - unfold l_clear. pose proof (clear_loop_types (S (length d)) d [] (Forall_nil _)) as T.
+      destruct (clear_loop tb (S (length d)) d []). intros H. inversion H. subst. exact T.
+  Qed.
+
+  (* ---- what a mutation emits is for a known observable, with types it declares; and the new slot
+          is what the listener computes from the signals *)
+  Lemma fold_apply_list owner n es : forall c,
+    fold_left (fun s e => apply_signal s (mk_signal owner n e)) es (SList (Some c)) = SList (Some (replay tb c es)).
+  Proof.
+    induction es as [|e t IH]; intros c; cbn [fold_left replay]; [reflexivity|].
+    cbn [apply_signal]. rewrite emit_of_mk. apply IH.
+  Qed.
+
+  Lemma emitted_sound dead owner x o n es : emitted tb x o = Some (n, es) ->
+    exists sl, slot_at (i_slots x) n = Some sl /\
+      (forall e, In e es -> In (e_type e) (types_of tb (i_slots x) n)) /\
+      i_slots (fst (step_inst tb dead owner x o)) =
+        set_slot (i_slots x) (Z.to_nat n) (fold_left (fun s e => apply_signal s (mk_signal owner n e)) es sl).
+  Proof.
+    destruct o as [i nm ty h'|i nm ty h'|i nm|i m v|i m vs|i m lo|hs]; cbn [emitted step_inst]; try discriminate.
+    - destruct (slot_at (i_slots x) m) as [[cur fb|l]|] eqn:E; try discriminate.
+      intros H. inversion H. subst. exists (SObs cur fb). split; [exact E|]. split.
+      + intros e [<-|[]]. unfold types_of. rewrite E. apply obs_type_ok.
+      + cbn [fold_left apply_signal mk_signal s_type s_new em_change e_type e_new]. rewrite Z.eqb_refl.
+        rewrite notify_all_fst_snd. reflexivity.
+    - destruct (slot_at (i_slots x) m) as [[cur fb|cur]|] eqn:E; try discriminate.
+      intros H. inversion H. subst. exists (SList cur). split; [exact E|]. split.
+      + intros e [<-|[]]. unfold types_of. rewrite E. apply list_types_ok. unfold emitted_types. cbn. tauto.
+      + cbn [fold_left apply_signal]. rewrite emit_of_mk, (apply_change tb Hdist').
+        rewrite notify_all_fst_snd. reflexivity.
+    - destruct (slot_at (i_slots x) m) as [[cur fb|[d|]]|] eqn:E; try discriminate.
+      destruct (list_op tb d lo) as [d' es' r|k] eqn:El; [|discriminate].
+      intros H. inversion H. subst. exists (SList (Some d)). split; [exact E|]. split.
+      + intros e He. unfold types_of. rewrite E. apply list_types_ok.
+        pose proof (list_op_types _ _ _ _ _ El) as T. rewrite Forall_forall in T. apply T. exact He.
+      + rewrite fold_apply_list, (list_op_replay tb Hdist' _ _ _ _ _ El).
+        rewrite notify_all_fst_snd. reflexivity.
+  Qed.
+  Lemma emitted_none_slots dead owner x o : emitted tb x o = None ->
+    i_slots (fst (step_inst tb dead owner x o)) = i_slots x.
+  Proof.
+    destruct o as [i nm ty h'|i nm ty h'|i nm|i m v|i m vs|i m lo|hs]; cbn [emitted step_inst].
+    - intros _. destruct (zmem h' dead); [reflexivity|].
+      pose proof (observe_slots tb x nm ty h') as E. destruct (observe tb x nm ty h'). exact E.
+    - intros _. destruct (zmem h' dead); [reflexivity|].
+      pose proof (unobserve_slots tb dead x nm ty h') as E. destruct (unobserve tb dead x nm ty h'). exact E.
+    - intros _. destruct nm; reflexivity.
+    - destruct (slot_at (i_slots x) m) as [[cur fb|l]|]; try discriminate; reflexivity.
+    - destruct (slot_at (i_slots x) m) as [[cur fb|cur]|]; try discriminate; reflexivity.
+    - destruct (slot_at (i_slots x) m) as [[cur fb|[d|]]|]; try discriminate; try reflexivity.
+      destruct (list_op tb d lo); [discriminate|reflexivity].
+    - reflexivity.
+  Qed.
+End Listener.
+
+Fixpoint run_deliveries (tb : sig_tables) (st : state) (ops : list op) : list delivery :=
+  match ops with
+  | [] => []
+  | o :: t => snd (snd (step tb st o)) ++ run_deliveries tb (fst (step tb st o)) t
+  end.
+Lemma run_state_app tb a : forall st b, run_state tb st (a ++ b) = run_state tb (run_state tb st a) b.
+Proof. induction a as [|o t IH]; intros st b; cbn [app run_state]; [reflexivity|apply IH]. Qed.
+Lemma run_deliveries_app tb a : forall st b,
+  run_deliveries tb st (a ++ b) = run_deliveries tb st a ++ run_deliveries tb (run_state tb st a) b.
+Proof.
+  induction a as [|o t IH]; intros st b; cbn [app run_deliveries run_state]; [reflexivity|].
+  rewrite IH, app_assoc. reflexivity.
+Qed.
+
+(* operations that leave the listener's subscription alone *)
+Definition undisturbed (h : Z) (o : op) : bool :=
+  match o with
+  | Observe _ _ _ h' | Unobserve _ _ _ h' => negb (h' =? h)
+  | ClearAll _ _ => false
+  | Kill hs => negb (zmem h hs)
+  | _ => true
+  end.
+
+Section ListenerHistory.
+  Variable tb : sig_tables.
+  Hypothesis Hok : tables_ok tb = true.
+  Variable h : Z.
+
+  Lemma listen_app cp a b : listen tb h cp (a ++ b) = listen tb h (listen tb h cp a) b.
+  Proof. apply fold_left_app. Qed.
+  Lemma apply_delivery_other cp a s : (a =? h) = false -> apply_delivery tb h cp (a, s) = cp.
+  Proof. intros E. unfold apply_delivery. cbn [fst]. rewrite E. reflexivity. Qed.
+
+  Lemma listen_cnt0 s L : forall cp, cnt h L = 0%nat -> listen tb h cp (map (fun h' => (h', s)) L) = cp.
+  Proof.
+    induction L as [|a t IH]; intros cp H; cbn [map]; [reflexivity|].
+    unfold cnt in H. cbn [filter] in H. destruct (h =? a) eqn:E; [discriminate|].
+    unfold listen. cbn [fold_left]. rewrite apply_delivery_other by (rewrite Z.eqb_sym; exact E).
+    apply IH. exact H.
+  Qed.
+  Lemma listen_cnt1 s L : forall cp, cnt h L = 1%nat ->
+    listen tb h cp (map (fun h' => (h', s)) L) = apply_delivery tb h cp (h, s).
+  Proof.
+    induction L as [|a t IH]; intros cp H; [discriminate|]. cbn [map].
+    unfold cnt in H. cbn [filter] in H. unfold listen. cbn [fold_left]. destruct (h =? a) eqn:E.
+    - apply Z.eqb_eq in E. subst a. cbn [length] in H. apply listen_cnt0. unfold cnt. lia.
+    - rewrite apply_delivery_other by (rewrite Z.eqb_sym; exact E). apply IH. exact H.
+  Qed.
+
+  Lemma listen_deliveries_of dead j n s es : forall cp,
+    (forall e, In e es -> cnt h (live dead (sget (n, e_type e) s)) = 1%nat) ->
+    listen tb h cp (deliveries_of dead j n s es) =
+    fold_left (fun c e => apply_delivery tb h c (h, mk_signal j n e)) es cp.
+  Proof.
+    induction es as [|e t IH]; intros cp H; [reflexivity|].
+    unfold deliveries_of. cbn [flat_map fold_left]. rewrite listen_app.
+    rewrite listen_cnt1 by (apply H; left; reflexivity).
+    apply IH. intros e' He'. apply H. right. exact He'.
+  Qed.
+
+  Lemma fold_apply_delivery j n es : 0 <= j -> 0 <= n -> forall cp,
+    fold_left (fun c e => apply_delivery tb h c (h, mk_signal j n e)) es cp =
+    upd_list cp (Z.to_nat j) (fun sl => upd_list sl (Z.to_nat n)
+               (fun x => fold_left (fun s e => apply_signal tb s (mk_signal j n e)) es x)).
+  Proof.
+    intros Hj Hn. induction es as [|e t IH]; intros cp; cbn [fold_left].
+    - symmetry. rewrite (upd_list_ext _ (fun sl => sl)); [apply upd_list_id|]. intros sl. apply upd_list_id.
+    - rewrite IH. unfold apply_delivery. cbn [fst snd mk_signal s_owner s_name]. rewrite Z.eqb_refl.
+      assert ((j <? 0) || (n <? 0) = false) as -> by (apply orb_false_iff; split; apply Z.ltb_ge; assumption).
+      rewrite upd_list_comp. apply upd_list_ext. intros sl. rewrite upd_list_comp. reflexivity.
+  Qed.
+
+  (* the listener is subscribed exactly once, alive, to every (name, type) of every instance *)
+  Definition sub_inv_at (st : state) (i : Z) : Prop :=
+    forall x, inst_at (st_insts st) i = Some x ->
+    forall n t, known (i_slots x) n = true -> In t (types_of tb (i_slots x) n) ->
+    cnt h (live (st_dead st) (sget (n, t) (i_subs x))) = 1%nat.
+  Definition sub_inv (st : state) : Prop := zmem h (st_dead st) = false /\ forall i, sub_inv_at st i.
+
+  Lemma spec_key_step_cnt dead slots o k l : zmem h dead = false -> undisturbed h o = true ->
+    cnt h (live dead (spec_key_step tb dead slots o k l)) = cnt h (live dead l).
+  Proof.
+    intros Hd Hu. destruct o as [i nm ty h'|i nm ty h'|i nm|i n v|i n vs|i n lo|hs]; cbn [spec_key_step undisturbed] in *;
+      try reflexivity; try discriminate.
+    - apply negb_true_iff in Hu. destruct (zmem h' dead); [reflexivity|].
+      destruct (observe_ok tb slots nm ty && matches tb slots nm ty k); [|reflexivity].
+      rewrite live_app, cnt_app. unfold live. cbn [filter]. destruct (alive dead h'); cbn [cnt filter length].
+      + unfold cnt. cbn [filter]. rewrite Z.eqb_sym, Hu. cbn [length]. lia.
+      + unfold cnt. cbn. lia.
+    - apply negb_true_iff in Hu. destruct (zmem h' dead); [reflexivity|].
+      destruct (unobserve_ok slots nm ty && matches tb slots nm ty k); [|reflexivity].
+      rewrite live_filter. apply cnt_filter_keep. unfold neq_h. rewrite Z.eqb_sym, Hu. reflexivity.
+  Qed.
+
+  Lemma sub_inv_step st o : sub_inv st -> undisturbed h o = true -> sub_inv (fst (step tb st o)).
+  Proof.
+    intros [Hd Hs] Hu. destruct (op_inst o) as [j|] eqn:E.
+    - rewrite (step_nonkill tb st o j E). destruct (inst_at (st_insts st) j) as [x|] eqn:Ex; [|split; assumption].
+      pose proof (step_inst_kinds tb (st_dead st) j x o) as K.
+      pose proof (fun k => step_inst_refines tb (st_dead st) j x o k Hok) as R.
+      destruct (step_inst tb (st_dead st) j x o) as [x' out]. cbn [fst] in *.
+      split; [exact Hd|]. intros i y Hy n t Hn Ht. cbn [st_insts st_dead] in *.
+      destruct (Z.eq_dec j i) as [->|Hne].
+      + rewrite (inst_at_set_same _ _ _ _ Ex) in Hy. inversion Hy. subst y.
+        rewrite (known_kinds _ _ n K) in Hn. rewrite (types_of_kinds tb _ _ n K) in Ht.
+        rewrite R, spec_key_step_cnt by assumption. apply (Hs i x Ex n t Hn Ht).
+      + rewrite (inst_at_set_other _ _ _ _ _ Ex Hne) in Hy. apply (Hs i y Hy n t Hn Ht).
+    - destruct (op_inst_none o E) as [hs ->]. cbn [undisturbed] in Hu. apply negb_true_iff in Hu.
+      cbn [step fst]. split; cbn [st_dead st_insts].
+      + rewrite zmem_app, Hu, Hd. reflexivity.
+      + intros i y Hy n t Hn Ht. cbn [st_dead st_insts] in *. rewrite live_dead_app. unfold live at 1.
+        rewrite cnt_filter_keep by (unfold alive; rewrite Hu; reflexivity). apply (Hs i y Hy n t Hn Ht).
+  Qed.
+
+  Lemma copy_step st o : sub_inv st ->
+    listen tb h (map i_slots (st_insts st)) (snd (snd (step tb st o))) = map i_slots (st_insts (fst (step tb st o))).
+  Proof.
+    intros [Hd Hs]. destruct (op_inst o) as [j|] eqn:E.
+    - rewrite (step_nonkill tb st o j E). destruct (inst_at (st_insts st) j) as [x|] eqn:Ex; [|reflexivity].
+      pose proof (step_inst_deliveries tb (st_dead st) j x o) as D.
+      pose proof (emitted_sound tb Hok (st_dead st) j x o) as S.
+      pose proof (emitted_none_slots tb (st_dead st) j x o) as N.
+      destruct (step_inst tb (st_dead st) j x o) as [x' out]. cbn [fst snd st_insts] in *.
+      destruct (inst_at_nonneg _ _ _ Ex) as [Hj Hnth].
+      rewrite map_set_inst, D.
+      destruct (emitted tb x o) as [[n es]|].
+      + destruct (S n es eq_refl) as [sl [Hsl [Hty Hslots]]].
+        assert (0 <= n) as Hn by (unfold slot_at in Hsl; destruct (n <? 0) eqn:En; [discriminate|apply Z.ltb_ge in En; exact En]).
+        rewrite listen_deliveries_of.
+        * rewrite (fold_apply_delivery j n es Hj Hn).
+          assert (nth_error (map i_slots (st_insts st)) (Z.to_nat j) = Some (i_slots x)) as Hm
+            by (rewrite nth_error_map, Hnth; reflexivity).
+          rewrite (upd_list_at _ _ _ _ Hm). apply upd_list_ext. intros _.
+          rewrite Hslots, set_slot_upd. apply (upd_list_at _ _ _ _ (slot_at_nth _ _ _ Hsl)).
+        * intros e He. apply (Hs j x Ex n (e_type e)); [unfold known; rewrite Hsl; reflexivity|apply Hty; exact He].
+      + cbn [listen fold_left]. rewrite (N eq_refl).
+        symmetry. rewrite <- (upd_list_at (fun sl => sl) _ _ (i_slots x)); [apply upd_list_id|].
+        rewrite nth_error_map, Hnth. reflexivity.
+    - destruct (op_inst_none o E) as [hs ->]. reflexivity.
+  Qed.
+
+  Theorem listen_history : forall ops st, sub_inv st -> forallb (undisturbed h) ops = true ->
+    listen tb h (map i_slots (st_insts st)) (run_deliveries tb st ops) = map i_slots (st_insts (run_state tb st ops)).
+  Proof.
+    induction ops as [|o t IH]; intros st Hs Hf; cbn [run_deliveries run_state]; [reflexivity|].
+    cbn [forallb] in Hf. apply andb_true_iff in Hf. destruct Hf as [Ho Hf].
+    rewrite listen_app, (copy_step st o Hs). apply IH; [apply sub_inv_step; assumption|exact Hf].
+  Qed.
+End ListenerHistory.
+
+(* ---- the listener subscribes with observe(All(), All(), h) on every instance, from the initial state *)
+Section ListenerStart.
+  Variable tb : sig_tables.
+  Hypothesis Hok : tables_ok tb = true.
+  Variable h : Z.
+
+  Definition sub_op (i : Z) : op := Observe i TAll SAll h.
+
+  Lemma observe_all_establishes st i x :
+    inst_at (st_insts st) i = Some x -> i_subs x = [] -> zmem h (st_dead st) = false ->
+    let st1 := fst (step tb st (sub_op i)) in
+    sub_inv_at tb h st1 i /\ st_dead st1 = st_dead st /\
+    (forall j, j <> i -> inst_at (st_insts st1) j = inst_at (st_insts st) j) /\
+    snd (snd (step tb st (sub_op i))) = [] /\
+    map i_slots (st_insts st1) = map i_slots (st_insts st).
+  Proof.
+    intros Ex Hsub Hd. unfold sub_op. rewrite (step_nonkill tb st (Observe i TAll SAll h) i eq_refl), Ex. cbn [step_inst]. rewrite Hd.
+    pose proof (fun k => observe_sget tb x TAll SAll h k Hok) as G.
+    pose proof (observe_slots tb x TAll SAll h) as Sl.
+    destruct (observe tb x TAll SAll h) as [x' s']. cbn [fst snd st_insts st_dead] in *.
+    split; [|split; [reflexivity|split; [|split; [reflexivity|]]]].
+    - intros y Hy n t Hn Ht. cbn [st_insts st_dead] in *. rewrite (inst_at_set_same _ _ _ _ Ex) in Hy. inversion Hy. subst y.
+      rewrite Sl in Hn, Ht. rewrite G, Hsub. unfold observe_ok, matches, in_scope, type_sel. cbn [types_ok andb fst snd app].
+      rewrite Hn. apply zmem_In in Ht. rewrite Ht. cbn [andb sget app]. unfold live. cbn [filter]. unfold alive. rewrite Hd.
+      cbn [negb]. unfold cnt. cbn [filter]. rewrite Z.eqb_refl. reflexivity.
+    - intros j Hj. apply (inst_at_set_other _ _ _ _ _ Ex). congruence.
+    - rewrite map_set_inst, Sl. destruct (inst_at_nonneg _ _ _ Ex) as [_ Hn].
+      rewrite <- (upd_list_at (fun sl => sl) _ _ (i_slots x)); [apply upd_list_id|]. rewrite nth_error_map, Hn. reflexivity.
+  Qed.
+
+  Lemma start_phase : forall l st, NoDup l ->
+    (forall i, In i l -> exists x, inst_at (st_insts st) i = Some x /\ i_subs x = []) ->
+    zmem h (st_dead st) = false ->
+    let st' := run_state tb st (map sub_op l) in
+    (forall i, In i l -> sub_inv_at tb h st' i) /\
+    (forall j, ~ In j l -> inst_at (st_insts st') j = inst_at (st_insts st) j) /\
+    st_dead st' = st_dead st /\ run_deliveries tb st (map sub_op l) = [] /\
+    map i_slots (st_insts st') = map i_slots (st_insts st).
+  Proof.
+    induction l as [|a l' IH]; intros st Hnd Hq Hd; cbn [map run_state run_deliveries].
+    - repeat split; try reflexivity. intros i [].
+    - inversion Hnd as [|? ? Ha Hnd']. subst.
+      destruct (Hq a (or_introl eq_refl)) as [x [Ex Hsub]].
+      destruct (observe_all_establishes st a x Ex Hsub Hd) as [P1 [D1 [F1 [Ds1 M1]]]].
+      set (st1 := fst (step tb st (sub_op a))) in *.
+      assert (forall i, In i l' -> exists y, inst_at (st_insts st1) i = Some y /\ i_subs y = []) as Hq1.
+      { intros i Hi. rewrite F1 by (intros ->; contradiction). apply Hq. right. exact Hi. }
+      assert (zmem h (st_dead st1) = false) as Hd1 by (rewrite D1; exact Hd).
+      destruct (IH st1 Hnd' Hq1 Hd1) as [P2 [F2 [D2 [Ds2 M2]]]].
+      split; [|split; [|split; [|split]]].
+      + intros i [<-|Hi]; [|apply P2; exact Hi].
+        intros y Hy. rewrite (F2 a Ha) in Hy. rewrite D2. apply (P1 y Hy).
+      + intros j Hj. rewrite F2 by (intros Hc; apply Hj; right; exact Hc). apply F1. intros ->. apply Hj. left. reflexivity.
+      + rewrite D2. exact D1.
+      + rewrite Ds1, Ds2. reflexivity.
+      + rewrite M2. exact M1.
+  Qed.
+
+  Definition subscribe_all (k : nat) : list op := map sub_op (map Z.of_nat (seq 0 k)).
+
+  (* ONE theorem: from the initial state of any case, a listener subscribed with All/All to every instance and
+     left alone holds, after every prefix of every history, exactly the values of all observables *)
+  Theorem listener_replay (c : case) (ops : list op) (n : nat) :
+    forallb (undisturbed h) ops = true ->
+    let hist := subscribe_all (length (c_insts c)) ++ firstn n ops in
+    listen tb h (c_insts c) (run_deliveries tb (init_state c) hist) =
+    map i_slots (st_insts (run_state tb (init_state c) hist)).
+  Proof.
+    intros Hf hist. unfold hist, subscribe_all.
+    set (l := map Z.of_nat (seq 0 (length (c_insts c)))).
+    assert (NoDup l) as Hnd.
+    { unfold l. apply FinFun.Injective_map_NoDup; [intros a b; lia|apply seq_NoDup]. }
+    assert (forall i x, inst_at (st_insts (init_state c)) i = Some x -> In i l /\ i_subs x = []) as Hinit.
+    { intros i x Hx. destruct (inst_at_nonneg _ _ _ Hx) as [H0 Hn]. cbn [init_state st_insts] in Hn.
+      assert (Z.to_nat i < length (c_insts c))%nat as Hlt
+        by (rewrite <- (map_length (fun sl => {| i_slots := sl; i_subs := [] |})); apply nth_error_Some; congruence).
+      split.
+      - unfold l. apply in_map_iff. exists (Z.to_nat i). split; [lia|apply in_seq; lia].
+      - rewrite nth_error_map in Hn. destruct (nth_error (c_insts c) (Z.to_nat i)); inversion Hn. reflexivity. }
+    assert (forall i, In i l -> exists x, inst_at (st_insts (init_state c)) i = Some x /\ i_subs x = []) as Hq.
+    { intros i Hi. unfold l in Hi. apply in_map_iff in Hi. destruct Hi as [k [<- Hk]]. apply in_seq in Hk.
+      unfold inst_at. destruct (Z.of_nat k <? 0) eqn:E; [apply Z.ltb_lt in E; lia|]. rewrite Nat2Z.id.
+      cbn [init_state st_insts]. rewrite nth_error_map.
+      destruct (nth_error (c_insts c) k) eqn:En; [eexists; split; reflexivity|apply nth_error_None in En; lia]. }
+    destruct (start_phase l (init_state c) Hnd Hq eq_refl) as [P [F [D [Ds M]]]].
+    rewrite run_state_app, run_deliveries_app, Ds. cbn [app].
+    set (st0 := run_state tb (init_state c) (map sub_op l)) in *.
+    assert (c_insts c = map i_slots (st_insts st0)) as ->.
+    { rewrite M. cbn [init_state st_insts]. rewrite map_map. cbn [i_slots]. symmetry. apply map_id. }
+    apply (listen_history tb Hok h).
+    - split; [rewrite D; reflexivity|]. intros i y Hy.
+      destruct (in_dec Z.eq_dec i l) as [Hi|Hi]; [apply (P i Hi y Hy)|].
+      rewrite (F i Hi) in Hy. destruct (Hinit i y Hy) as [Hc _]. contradiction.
+    - clear -Hf. revert n. induction ops as [|o t IH]; intros [|n]; cbn [firstn forallb]; try reflexivity.
+      cbn [forallb] in Hf. apply andb_true_iff in Hf. destruct Hf as [H1 H2]. rewrite H1. apply (IH H2).
+  Qed.
+End ListenerStart.
+
+(* ================================================================== the class hierarchy *)
+Fixpoint cd_get (n : Z) (cd : classdict) : option entry :=
+  match cd with [] => None | (m, e) :: t => if n =? m then Some e else cd_get n t end.
+(* what attribute lookup finds: the binding in the most derived class that binds the name *)
+Fixpoint most_derived (mro : list classdict) (n : Z) : option entry :=
+  match mro with
+  | [] => None
+  | cd :: t => match cd_get n cd with Some e => Some e | None => most_derived t n end
+  end.
+
+Lemma cd_get_none n cd : cd_get n cd = None <-> ~ In n (map fst cd).
+Proof.
+  induction cd as [|[m e] t IH]; cbn [cd_get map fst In]; [tauto|].
+  destruct (n =? m) eqn:E.
+  - apply Z.eqb_eq in E. subst. split; [discriminate|intros H; exfalso; apply H; left; reflexivity].
+  - apply Z.eqb_neq in E. rewrite IH. split; [intros H [H1|H1]; [congruence|contradiction]|tauto].
+Qed.
+
+Lemma dg_class_spec cd : forall seen,
+  let r := dg_class true seen cd in
+  (forall x, In x (fst r) <-> In x seen \/ In x (map fst cd)) /\
+  (forall n e, In (n, e) (snd r) <-> ~ In n seen /\ cd_get n cd = Some e /\ is_obs e = true).
+Proof.
+  induction cd as [|[m e0] t IH]; intros seen; cbn [dg_class].
+  - cbn. split; [tauto|]. intros n e. split; [intros []|intros [_ [H _]]; discriminate].
+  - cbn [andb]. destruct (zmem m seen) eqn:Em.
+    + apply zmem_In in Em. destruct (IH seen) as [H1 H2]. split.
+      * intros x. rewrite H1. cbn [map fst In]. split; [tauto|intros [H|[H|H]]; [tauto|subst; tauto|tauto]].
+      * intros n e. rewrite H2. cbn [cd_get]. destruct (n =? m) eqn:E; [|tauto].
+        apply Z.eqb_eq in E. subst. split; [tauto|intros [H _]; contradiction].
+    + assert (~ In m seen) as Hm by (intros H; apply zmem_In in H; congruence).
+      destruct (IH (m :: seen)) as [H1 H2]. destruct (dg_class true (m :: seen) t) as [seen' out']. cbn [fst snd] in *.
+      split.
+      * intros x. rewrite H1. cbn [map fst In]. tauto.
+      * intros n e. cbn [cd_get]. destruct (n =? m) eqn:E.
+        -- apply Z.eqb_eq in E. subst n. destruct (is_obs e0) eqn:Eo.
+           ++ cbn [In]. rewrite H2. cbn [In]. split.
+              ** intros [H|[H _]]; [inversion H; subst; tauto|exfalso; apply H; left; reflexivity].
+              ** intros [_ [H Ho]]. left. inversion H. reflexivity.
+           ++ rewrite H2. cbn [In]. split; [intros [H _]; exfalso; apply H; left; reflexivity|].
+              intros [_ [H Ho]]. inversion H. subst. congruence.
+        -- apply Z.eqb_neq in E. destruct (is_obs e0).
+           ++ cbn [In]. rewrite H2. cbn [In]. split.
+              ** intros [H|[H1' H2']]; [inversion H; congruence|tauto].
+              ** intros [H1' H2']. right. split; [intros [H|H]; [congruence|contradiction]|exact H2'].
+           ++ rewrite H2. cbn [In]. split; [tauto|]. intros [H1' H2']. split; [intros [H|H]; [congruence|contradiction]|exact H2'].
+Qed.
+
+Lemma dg_walk_spec mro : forall seen n e,
+  In (n, e) (dg_walk true seen mro) <-> ~ In n seen /\ most_derived mro n = Some e /\ is_obs e = true.
+Proof.
+  induction mro as [|cd t IH]; intros seen n e; cbn [dg_walk most_derived].
+  - split; [intros []|intros [_ [H _]]; discriminate].
+  - destruct (dg_class_spec cd seen) as [H1 H2]. destruct (dg_class true seen cd) as [seen' out]. cbn [fst snd] in *.
+    rewrite in_app_iff, H2, IH, H1. destruct (cd_get n cd) as [e'|] eqn:Ec.
+    + assert (In n (map fst cd)) as Hin.
+      { destruct (in_dec Z.eq_dec n (map fst cd)) as [H|H]; [exact H|]. apply cd_get_none in H. congruence. }
+      split; [intros [H|[H _]]; [tauto|exfalso; apply H; right; exact Hin]|tauto].
+    + assert (~ In n (map fst cd)) as Hn by (apply cd_get_none; exact Ec).
+      split; [intros [[_ [H _]]|H]; [discriminate|tauto]|intros H; right; tauto].
+Qed.
+
+(* dict(pairs) *)
+Fixpoint alast (n : Z) (l : list (Z * entry)) : option entry :=
+  match l with [] => None | (m, e) :: t => match alast n t with Some e' => Some e' | None => if n =? m then Some e else None end end.
+Lemma dict_get_set n k v d : dict_get n (dict_set k v d) = if n =? k then Some v else dict_get n d.
+Proof.
+  induction d as [|[k' v'] t IH]; cbn [dict_set dict_get]; [reflexivity|].
+  destruct (k =? k') eqn:E; cbn [dict_get].
+  - apply Z.eqb_eq in E. subst k'. destruct (n =? k); reflexivity.
+  - rewrite IH. destruct (n =? k') eqn:E2; [|reflexivity]. apply Z.eqb_eq in E2. subst k'.
+    destruct (n =? k) eqn:E3; [|reflexivity]. apply Z.eqb_eq in E3. subst. rewrite Z.eqb_refl in E. discriminate.
+Qed.
+Lemma dict_of_get n l : forall d,
+  dict_get n (fold_left (fun d p => dict_set (fst p) (snd p) d) l d) =
+  match alast n l with Some e => Some e | None => dict_get n d end.
+Proof.
+  induction l as [|[m e] t IH]; intros d; cbn [fold_left alast fst snd]; [reflexivity|].
+  rewrite IH. destruct (alast n t); [reflexivity|]. rewrite dict_get_set. destruct (n =? m); reflexivity.
+Qed.
+Lemma alast_In n l : (forall e1 e2, In (n, e1) l -> In (n, e2) l -> e1 = e2) ->
+  match alast n l with Some e => In (n, e) l | None => forall e, ~ In (n, e) l end.
+Proof.
+  induction l as [|[m e0] t IH]; intros Hf; cbn [alast]; [intros e []|].
+  assert (forall e1 e2, In (n, e1) t -> In (n, e2) t -> e1 = e2) as Hf' by (intros; apply Hf; right; assumption).
+  specialize (IH Hf'). destruct (alast n t) as [e'|]; [right; exact IH|].
+  destruct (n =? m) eqn:E.
+  - apply Z.eqb_eq in E. subst. left. reflexivity.
+  - apply Z.eqb_neq in E. intros e [H|H]; [inversion H; congruence|apply (IH e H)].
+Qed.
+
+(* with the shadowing walk, observables[name] is the most derived definition of name, if that is an observable *)
+Theorem observables_most_derived mro n :
+  dict_get n (observables_of true mro) =
+  match most_derived mro n with Some e => if is_obs e then Some e else None | None => None end.
+Proof.
+  unfold observables_of. rewrite dict_of_get. cbn [dict_get].
+  assert (forall e1 e2, In (n, e1) (dg_walk true [] mro) -> In (n, e2) (dg_walk true [] mro) -> e1 = e2) as Hf.
+  { intros e1 e2 H1 H2. apply dg_walk_spec in H1. apply dg_walk_spec in H2. destruct H1 as [_ [H1 _]], H2 as [_ [H2 _]]. congruence. }
+  pose proof (alast_In n _ Hf) as A. destruct (alast n (dg_walk true [] mro)) as [e|].
+  - apply dg_walk_spec in A. destruct A as [_ [-> ->]]. reflexivity.
+  - destruct (most_derived mro n) as [e|] eqn:Em; [|reflexivity]. destruct (is_obs e) eqn:Eo; [|reflexivity].
+    exfalso. apply (A e). apply dg_walk_spec. split; [intros []|split; [exact Em|exact Eo]].
+Qed.
+
+Lemma nth_error_build_slots obs vals : forall k m,
+  nth_error (build_slots obs k vals) m = option_map (slot_from (dict_get (k + Z.of_nat m) obs)) (nth_error vals m).
+Proof.
+  induction vals as [|s t IH]; intros k [|m]; cbn [build_slots nth_error option_map]; try reflexivity.
+  - rewrite Z.add_0_r. reflexivity.
+  - rewrite IH. replace (k + 1 + Z.of_nat m) with (k + Z.of_nat (S m)) by lia. reflexivity.
+Qed.
+Definition types_of_entry (tb : sig_tables) (e : entry) : list Z :=
+  match e with EObs _ => tb_obs_types tb | EList => tb_list_types tb | EPlain => [] end.
+(* the signal types the model (hence run_case) uses for attribute n of an instance are those of the most
+   derived definition of n in the class hierarchy of the case *)
+Theorem effective_types tb shadow mro vals n s e : shadow = true ->
+  0 <= n -> nth_error vals (Z.to_nat n) = Some s -> most_derived mro n = Some e -> is_obs e = true ->
+  types_of tb (build_slots (observables_of shadow mro) 0 vals) n = types_of_entry tb e.
+Proof.
+  intros -> Hn Hs Hm Ho. unfold types_of, slot_at. destruct (n <? 0) eqn:E; [apply Z.ltb_lt in E; lia|].
+  rewrite nth_error_build_slots, Hs. cbn [option_map]. rewrite Z2Nat.id by lia. cbn [Z.add].
+  rewrite observables_most_derived, Hm, Ho. destruct e as [fb| |]; [destruct s; reflexivity|destruct s; reflexivity|discriminate].
+Qed.
